@@ -16,11 +16,13 @@ func init() {
 	register(&Prop{
 		ID:        "C23",
 		Level:     "other",
-		Technique: "table agreement between the three lists of sharded request kinds (type-resolved), must-pass-through analysis of every loop over request items in the shard methods (taint from the loop variables to accounting statements, alias resolution of per-broker containers), container-consumption and emission-loop rules up to the returned []issueShard, accumulate-shape rule for every append/map store, per-shard counting in handleShardedReq.issue with request-identity rule, sibling-agreement of the scalar request fields enumerated from go/types, and must-pass-through analysis of the merge functions",
+		Technique: "table agreement between the three lists of sharded request kinds (type-resolved), must-pass-through analysis of every loop over request items in the shard methods (taint from the loop variables to accounting statements, alias resolution of per-broker containers), container-consumption and emission-loop rules up to the returned []issueShard, accumulate-shape rule for every append/map store, exclusive-accounting (at most once per iteration) path search, sibling agreement between the single-item request construction and the response-side key conversion, per-shard counting in handleShardedReq.issue with request-identity rule, sibling-agreement of the scalar request fields enumerated from go/types, and must-pass-through analysis of the merge functions",
 		Explanation: "(1) sharded-request-tables-agree: the request types that shardedRequest routes to handleShardedReq equal the types with a sharder arm in handleShardedReq (no default arm, one distinct sharder type per request type) and the list in Request's documentation; each sharder's shard/onResp/merge type-assert exactly the request type they are dispatched for and its response type. " +
 			"(2) every-item-accounted: in every shard method, every path through the body of a loop over the request's items (and over their sub-items, and over replica fan-outs) reaches an accounting statement before the next iteration - an append/map store of data derived from the loop variable into a container that is later turned into issueShards, unknownErrShards.err/errs on such a container, a call of a local accounting closure, or a wholesale error return; a freshly made per-broker container is registered in its parent map; every container that receives items is consumed (ranged by an emission loop, collected, returned, or emitted under len(c) > 0) and every path through an emission loop body carries the loop's data into the issueShard it appends, whose req value derives from the loop variables; every issueShard literal is routed (broker, any or err). unknownErrShards.err appends to what is already stored for (error, topic), errs feeds every element through err, collect emits one error shard per error with every topic. Every `x = append(y, ..)` accumulates into the same place (y is x). " +
 			"(3) shard-issued-exactly-once: in handleShardedReq.issue a failed split adds exactly one error shard for the piece; in the per-shard loop every iteration adds one shard or starts one goroutine, the goroutine ends on every path with exactly one addShard or one recursive issue, all of them naming the shard's own request (issues[i].req), the goroutine is registered in the WaitGroup before it starts and wg.Wait precedes the return; addShard appends under the mutex. " +
 			"(4) split-requests-copy-scalar-fields (observation only, never a violation: the statement of C23 is about items, not request settings): for every place a sharder builds a new request of the sharded type, every non-slice field of the kmsg struct (enumerated through go/types, minus Version/UnknownTags) is expected to be assigned from the same field of the original request, or the whole struct copied; deviations are listed under `observations` in the evidence (on the pinned tree: listOffsetsSharder does not copy ListOffsetsRequest.TimeoutMillis). " +
+			"(2b) item-accounted-at-most-once: in every item loop (and nested sub-item / fan-out loop) of every shard method the accounting statements of one loop level are mutually exclusive per iteration: after an accounting statement (or a nested item loop) no second one is reachable before the next iteration, so an item is never placed in an error list and then also in a broker request. " +
+			"(6) response-item-key-from-assigned-request-field: wherever the response side (onResp and the package-level helpers it calls with the request) stores a field of the request into a response item (group name, transactional id, coordinator key), every request field it reads is one that the single-item request construction assigns unconditionally (the forward conversion helper, e.g. offsetFetchGroupToReq / addPartitionsTxnToReq, or the per-item construction inside the shard loop), and the store dominates the point where the converted item is returned or appended. " +
 			"(5) merge-keeps-every-item: every item array of the response type is transferred by the merge callback on every path (append of resp.F... or a loop whose body appends on every path; skipping is allowed only for first-wins de-duplication through a seen-set), intermediate maps are emitted into the merged response, and firstErrMerger hands every error-free shard to the callback.",
 		NotDecided: "that the broker chosen for an item is the right one (metadata/coordinator lookups are trusted), exactly-one-shard for the replica-fanned kinds (AlterReplicaLogDirs and DescribeLogDirs send an item to every replica by design; an item whose metadata lists zero replicas lands in no shard), value-level contents of the merged response (e.g. WriteTxnMarkers merges by producer ID only), and duplicate items in the caller's request (FindCoordinator de-duplicates keys by design).",
 		Assumptions: []string{
@@ -52,6 +54,7 @@ func runC23(c *Ctx) {
 	c23issue(c, m)
 	c23scalars(c, m, shs)
 	c23merge(c, m, shs)
+	c23convert(c, m, shs)
 	c23dump(c)
 }
 
@@ -426,6 +429,7 @@ type c23fn struct {
 	roots map[types.Object]ast.Node
 	nDist int
 	nEmit int
+	nOnce int
 	seen  map[string]int
 	// merge analysis: record emit-mode transfer roots; sets that are emitted later
 	recordEmit bool
@@ -790,6 +794,54 @@ func (s *c23fn) checkLoop(g *Graph, rs *ast.RangeStmt, seeds map[types.Object]bo
 		what += fmt.Sprintf("; %d nested loop(s) checked separately", len(nested))
 	}
 	c.Check(!skip, rule, cons, rs.Pos(), m, what, bad)
+	if mode == c23dist {
+		// exactly once: after an accounting statement of this loop level (or a
+		// nested item loop) no second one is reachable before the next iteration
+		inNested := func(n ast.Node) bool {
+			for _, nl := range nested {
+				if c23within(n, nl.Body) {
+					return true
+				}
+			}
+			return false
+		}
+		isEvent := func(n ast.Node) bool {
+			if !c23within(n, rs.Body) {
+				return false
+			}
+			if isNestedX(n) {
+				return true
+			}
+			return !inNested(n) && pred(n)
+		}
+		nEv := 0
+		var dbl []ast.Node
+		var first ast.Node
+		for _, b := range g.C.Blocks {
+			if !g.live[b.Index] {
+				continue
+			}
+			for i, n := range b.Nodes {
+				if !isEvent(n) {
+					continue
+				}
+				nEv++
+				if p, again := g.FindPath(Loc{int(b.Index), i}, SearchOpts{
+					GoalNode:  isEvent,
+					StopBlock: func(x *cfg.Block) bool { return x == head },
+				}); again && dbl == nil {
+					first = n
+					dbl = p
+				}
+			}
+		}
+		s.nOnce++
+		detail := ""
+		if dbl != nil {
+			detail = "after `" + nodeStr(first) + "` (" + m.Position(first.Pos()) + ") the same iteration can reach a second accounting statement (path: " + pathStr(dbl) + "): the item is placed in two broker requests / error lists and is returned in two shards"
+		}
+		c.Check(dbl == nil, "item-accounted-at-most-once", cons, rs.Pos(), m, fmt.Sprintf("the %d accounting statement(s) of the body are mutually exclusive per iteration", nEv), detail)
+	}
 	if s.itemVars == nil {
 		s.itemVars = map[types.Object]bool{}
 	}
@@ -812,7 +864,7 @@ func (s *c23fn) checkLoop(g *Graph, rs *ast.RangeStmt, seeds map[types.Object]bo
 
 func c23accounting(c *Ctx, m *Module, shs []c23sharder) {
 	rule := "every-item-accounted"
-	totalDist, totalEmit := 0, 0
+	totalDist, totalEmit, totalOnce := 0, 0, 0
 	for _, sh := range shs {
 		if sh.shard == nil {
 			continue
@@ -820,7 +872,9 @@ func c23accounting(c *Ctx, m *Module, shs []c23sharder) {
 		s := c23analyseShard(c, m, sh.shard, rule, sh.reqType)
 		totalDist += s.nDist
 		totalEmit += s.nEmit
+		totalOnce += s.nOnce
 	}
+	c.Floor("item-accounted-at-most-once", totalOnce, 26)
 	c.Floor(rule+"#item-loops", totalDist, 26)
 	c.Floor(rule+"#emission-loops", totalEmit, 40)
 	// allBrokersShardedReq: one shard per known broker
@@ -2591,4 +2645,335 @@ func c23merge(c *Ctx, m *Module, shs []c23sharder) {
 		}
 		c.Check(ok, rule, f.Key, f.Pos(), m, "merge(sresp.Resp) for every shard with Err == nil", "firstErrMerger can skip a shard that has a response: its items are missing from the merged response")
 	}
+}
+
+// ---------------------------------------------------------------------------
+// (6) single-item conversions: the response side reads the item key from a
+// request field that the request side assigns
+
+// c23unconditional: the statement is not nested in an if/switch/select (it
+// runs on every path that does not leave the function early); loops are fine.
+func c23unconditional(parents map[ast.Node]ast.Node, n ast.Node, top ast.Node) bool {
+	for p := parents[n]; p != nil && p != top; p = parents[p] {
+		switch p.(type) {
+		case *ast.IfStmt, *ast.SwitchStmt, *ast.TypeSwitchStmt, *ast.SelectStmt, *ast.CaseClause, *ast.CommClause, *ast.FuncLit:
+			return false
+		}
+	}
+	return true
+}
+
+// c23assignedFields: fields of struct type T assigned unconditionally through
+// the variable obj (obj.F = .. / obj.F = append(obj.F, ..)) under root.
+func c23assignedFields(info *types.Info, root ast.Node, obj types.Object, T *types.Named, out map[string]bool) {
+	st, ok := T.Underlying().(*types.Struct)
+	if !ok || obj == nil {
+		return
+	}
+	isField := map[string]bool{}
+	for i := 0; i < st.NumFields(); i++ {
+		isField[st.Field(i).Name()] = true
+	}
+	parents := parentMap(root)
+	ast.Inspect(root, func(x ast.Node) bool {
+		as, ok := x.(*ast.AssignStmt)
+		if !ok {
+			return true
+		}
+		for _, l := range as.Lhs {
+			sel, ok := unparen(l).(*ast.SelectorExpr)
+			if !ok || !isField[sel.Sel.Name] {
+				continue
+			}
+			if id, isID := unparen(sel.X).(*ast.Ident); !isID || c23rootObj(info, id) != obj {
+				continue
+			}
+			if c23unconditional(parents, as, root) {
+				out[sel.Sel.Name] = true
+			}
+		}
+		return true
+	})
+}
+
+func c23convert(c *Ctx, m *Module, shs []c23sharder) {
+	rule := "response-item-key-from-assigned-request-field"
+	nKeys := 0
+	for _, sh := range shs {
+		if sh.shard == nil || sh.onResp == nil || sh.respType == nil {
+			continue
+		}
+		T, R := sh.reqType, sh.respType
+		isT := func(t types.Type) bool {
+			n := c23kmsgNamed(t)
+			return n != nil && n.Obj() == T.Obj()
+		}
+		tst, ok1 := T.Underlying().(*types.Struct)
+		rst, ok2 := R.Underlying().(*types.Struct)
+		if !ok1 || !ok2 {
+			continue
+		}
+		tField := map[string]bool{}
+		for i := 0; i < tst.NumFields(); i++ {
+			tField[tst.Field(i).Name()] = true
+		}
+		// response item types: element types of R's arrays
+		itemT := map[*types.TypeName]bool{}
+		for i := 0; i < rst.NumFields(); i++ {
+			if sl, ok := rst.Field(i).Type().Underlying().(*types.Slice); ok {
+				if n := c23kmsgNamed(sl.Elem()); n != nil {
+					itemT[n.Obj()] = true
+				}
+			}
+		}
+		// package-level kgo helpers called from a function
+		helpersOf := func(f *Func) []*Func {
+			var out []*Func
+			seen := map[string]bool{}
+			for _, call := range c22callsDeep(f.Decl.Body, func(*ast.CallExpr) bool { return true }) {
+				fn, ok := calleeObj(f.Info(), call).(*types.Func)
+				if !ok || fn.Pkg() == nil || fn.Pkg().Name() != "kgo" || fn.Type().(*types.Signature).Recv() != nil {
+					continue
+				}
+				if hf := m.Func(keyOfObj(fn)); hf != nil && !seen[hf.Key] {
+					seen[hf.Key] = true
+					out = append(out, hf)
+				}
+			}
+			return out
+		}
+		// --- request side: fields assigned by the single-item constructions
+		assigned := map[string]bool{}
+		var srcs []string
+		fillers := map[string]bool{} // helpers that fill a *T parameter
+		for _, hf := range helpersOf(sh.shard) {
+			hi := hf.Info()
+			before := len(assigned)
+			// (i) builds and returns a *T
+			sig := hf.Obj.Type().(*types.Signature)
+			if sig.Results().Len() == 1 && isT(sig.Results().At(0).Type()) {
+				ast.Inspect(hf.Decl.Body, func(x ast.Node) bool {
+					as, ok := x.(*ast.AssignStmt)
+					if !ok || len(as.Lhs) != 1 || len(as.Rhs) != 1 {
+						return true
+					}
+					if call, ok := unparen(as.Rhs[0]).(*ast.CallExpr); ok {
+						if fn, ok := calleeObj(hi, call).(*types.Func); ok && fn.Pkg() != nil && fn.Pkg().Name() == "kmsg" && strings.HasPrefix(fn.Name(), "New") && strings.HasSuffix(fn.Name(), T.Obj().Name()) {
+							c23assignedFields(hi, hf.Decl.Body, c23rootObj(hi, as.Lhs[0]), T, assigned)
+						}
+					}
+					return true
+				})
+			}
+			// (ii) fills a *T parameter
+			for _, fl := range hf.Decl.Type.Params.List {
+				for _, nm := range fl.Names {
+					if po := hi.Defs[nm]; po != nil && isT(po.Type()) {
+						n0 := len(assigned)
+						c23assignedFields(hi, hf.Decl.Body, po, T, assigned)
+						if len(assigned) > n0 {
+							fillers[hf.Key] = true
+						}
+					}
+				}
+			}
+			if len(assigned) > before {
+				srcs = append(srcs, hf.Key)
+				c.Touch(hf)
+			}
+		}
+		// constructions in shard: handed to a filler, or built once per item inside an item loop
+		{
+			f := sh.shard
+			info := f.Info()
+			parents := parentMap(f.Decl.Body)
+			ast.Inspect(f.Decl.Body, func(x ast.Node) bool {
+				as, ok := x.(*ast.AssignStmt)
+				if !ok || len(as.Lhs) != 1 || len(as.Rhs) != 1 {
+					return true
+				}
+				call, ok := unparen(as.Rhs[0]).(*ast.CallExpr)
+				if !ok {
+					return true
+				}
+				fn, ok := calleeObj(info, call).(*types.Func)
+				if !ok || fn.Pkg() == nil || fn.Pkg().Name() != "kmsg" || !strings.HasPrefix(fn.Name(), "New") || !strings.HasSuffix(fn.Name(), T.Obj().Name()) {
+					return true
+				}
+				ro := c23rootObj(info, as.Lhs[0])
+				var ctx ast.Node = f.Decl.Body
+				inLoop := false
+				for p := parents[as]; p != nil; p = parents[p] {
+					if lit, ok := p.(*ast.FuncLit); ok && ctx == ast.Node(f.Decl.Body) {
+						ctx = lit.Body
+					}
+					if rs, ok := p.(*ast.RangeStmt); ok && ctx == ast.Node(f.Decl.Body) {
+						inLoop = true
+						ctx = rs.Body
+					}
+				}
+				toFiller := containsNode(ctx, false, func(y ast.Node) bool {
+					c2, ok := y.(*ast.CallExpr)
+					if !ok {
+						return false
+					}
+					if hfn, ok := calleeObj(info, c2).(*types.Func); ok && fillers[keyOfObj(hfn)] {
+						for _, a := range c2.Args {
+							if c23rootObj(info, a) == ro {
+								return true
+							}
+						}
+					}
+					return false
+				})
+				if toFiller || (inLoop && len(srcs) == 0) {
+					n0 := len(assigned)
+					c23assignedFields(info, ctx, ro, T, assigned)
+					if len(assigned) > n0 {
+						srcs = append(srcs, f.Key+" (inline)")
+					}
+				}
+				return true
+			})
+		}
+		// --- response side
+		respFuncs := []*Func{sh.onResp}
+		for _, hf := range helpersOf(sh.onResp) {
+			for _, fl := range hf.Decl.Type.Params.List {
+				for _, nm := range fl.Names {
+					if po := hf.Info().Defs[nm]; po != nil && isT(po.Type()) {
+						respFuncs = append(respFuncs, hf)
+					}
+				}
+			}
+		}
+		for _, rf := range respFuncs {
+			info := rf.Info()
+			g := rf.Graph()
+			reqVars := map[types.Object]bool{}
+			for _, fl := range rf.Decl.Type.Params.List {
+				for _, nm := range fl.Names {
+					if po := info.Defs[nm]; po != nil && isT(po.Type()) {
+						reqVars[po] = true
+					}
+				}
+			}
+			ast.Inspect(rf.Decl.Body, func(x ast.Node) bool {
+				if as, ok := x.(*ast.AssignStmt); ok && len(as.Lhs) == 1 && len(as.Rhs) == 1 {
+					if ta, ok := unparen(as.Rhs[0]).(*ast.TypeAssertExpr); ok && ta.Type != nil && isT(info.Types[ta.Type].Type) {
+						reqVars[c23rootObj(info, as.Lhs[0])] = true
+					}
+				}
+				return true
+			})
+			if len(reqVars) == 0 {
+				continue
+			}
+			seen := map[string]int{}
+			ast.Inspect(rf.Decl.Body, func(x ast.Node) bool {
+				if _, isLit := x.(*ast.FuncLit); isLit {
+					return false
+				}
+				as, ok := x.(*ast.AssignStmt)
+				if !ok || len(as.Lhs) != len(as.Rhs) {
+					return true
+				}
+				for i, l := range as.Lhs {
+					sel, ok := unparen(l).(*ast.SelectorExpr)
+					if !ok {
+						continue
+					}
+					xid, isID := unparen(sel.X).(*ast.Ident)
+					if !isID {
+						continue
+					}
+					xo := c23rootObj(info, xid)
+					if xo == nil {
+						continue
+					}
+					xn := c23kmsgNamed(xo.Type())
+					if xn == nil || !itemT[xn.Obj()] {
+						continue
+					}
+					// request fields read by the right side
+					var reads []string
+					readSet := map[string]bool{}
+					ast.Inspect(as.Rhs[i], func(y ast.Node) bool {
+						rs, ok := y.(*ast.SelectorExpr)
+						if !ok || !tField[rs.Sel.Name] {
+							return true
+						}
+						if rid, ok := unparen(rs.X).(*ast.Ident); ok && reqVars[c23rootObj(info, rid)] && !readSet[rs.Sel.Name] {
+							readSet[rs.Sel.Name] = true
+							reads = append(reads, rs.Sel.Name)
+						}
+						return true
+					})
+					if len(reads) == 0 {
+						continue
+					}
+					nKeys++
+					c.Touch(rf)
+					cons := rf.Key + ": " + xn.Obj().Name() + "." + sel.Sel.Name
+					seen[cons]++
+					if k := seen[cons]; k > 1 {
+						cons = fmt.Sprintf("%s #%d", cons, k)
+					}
+					if len(assigned) == 0 {
+						c.Undecided(rule, cons, as.Pos(), m, "no single-item construction of "+T.Obj().Name()+" was recognised on the request side")
+						continue
+					}
+					var bad []string
+					for _, fd := range reads {
+						if !assigned[fd] {
+							bad = append(bad, fd)
+						}
+					}
+					// the key is set before the item leaves the function (returned / appended)
+					al, okl := g.LocOf(as)
+					always := okl
+					nOut := 0
+					ast.Inspect(rf.Decl.Body, func(y ast.Node) bool {
+						switch st := y.(type) {
+						case *ast.FuncLit:
+							return false
+						case *ast.ReturnStmt:
+							for _, r := range st.Results {
+								if id, ok := unparen(r).(*ast.Ident); ok && c23rootObj(info, id) == xo {
+									nOut++
+									if ol, ok := g.LocOf(st); !ok || !g.DominatesReg(al, ol) {
+										always = false
+									}
+								}
+							}
+						case *ast.AssignStmt:
+							for _, r := range st.Rhs {
+								if app, ok := c23isAppend(info, r); ok {
+									for _, v := range app.Args[1:] {
+										if id, ok := unparen(v).(*ast.Ident); ok && c23rootObj(info, id) == xo {
+											nOut++
+											if ol, ok := g.LocOf(st); !ok || !g.DominatesReg(al, ol) {
+												always = false
+											}
+										}
+									}
+								}
+							}
+						}
+						return true
+					})
+					var why []string
+					if len(bad) > 0 {
+						why = append(why, fmt.Sprintf("the response item's %s is taken from request field(s) %v, which the single-item request construction (%s) does not assign (it assigns %v): for a split request the item is reported under an empty/foreign key, so the requested item appears in no shard", sel.Sel.Name, bad, strings.Join(srcs, ", "), sortedKeys(assigned)))
+					}
+					if !always || nOut == 0 {
+						why = append(why, "the key is not assigned on every path before the converted item is returned/appended")
+					}
+					c.Check(len(why) == 0, rule, cons, as.Pos(), m, fmt.Sprintf("reads %v, assigned by %s", reads, strings.Join(srcs, ", ")), strings.Join(why, "; "))
+				}
+				return true
+			})
+		}
+	}
+	c.Floor(rule, nKeys, 3)
 }
